@@ -834,69 +834,78 @@ def element_classes():
     return done
 
 
+def element_outcome(cls, v):
+    """canonical outcome of cls(v): 'M <value>' | 'ERR <Class>' | 'NOTHING'"""
+    try:
+        r = cls(v)
+    except ValueError:
+        hook_none = False
+        try:
+            hook_none = cls._missing_(v) is None
+        except BaseException:
+            pass
+        return None, ("NOTHING" if hook_none else "ERR ValueError")
+    except BaseException as e:  # noqa
+        return None, impl_error(e)
+    if r is None or not isinstance(r, cls):
+        return None, "NOTHING"
+    return r, f"M {r.value}"
+
+
+def check_element_value(ctx, cls, w, v):
+    """the property for one element value on the real code; returns the canonical outcome"""
+    members = {m.value: m for m in cls}
+    inp = {"kind": "element", "element": cls.__name__, "value": v}
+    r, out = element_outcome(cls, v)
+    if out == "NOTHING":
+        ctx.fail("element-nothing", inp, f"{cls.__name__}({v}) yields nothing (the _missing_ hook returns None)")
+    elif out.startswith("ERR") and out != "ERR ValueError":
+        ctx.fail("element-error", inp, f"{cls.__name__}({v}) raises {out}, not the documented ValueError", actual=out)
+    elif v in members and out != f"M {v}":
+        ctx.fail("element-defined-not-self", inp, f"{cls.__name__}({v}) is defined but maps to {out}", expected=f"M {v}", actual=out)
+    elif out.startswith("M"):
+        m = int(out[2:])
+        if m not in members or m >= 2**w:
+            ctx.fail("element-fold-target", inp, f"{cls.__name__}({v}) maps to {m} which is not a defined {w}-bit member", actual=out)
+        else:
+            again, err = call(cls, m)
+            if err or again is not r:
+                ctx.fail("element-fold-not-idempotent", inp, f"{cls.__name__}({v}) = {m} but {cls.__name__}({m}) is {err or again}")
+        if "from_bits" in vars(cls):
+            fb, err = call(cls.from_bits, int2ba(v, length=w))
+            if err or fb is not r:
+                ctx.fail("element-from_bits", inp, f"{cls.__name__}.from_bits({v}) = {err or fb} differs from the constructor ({r})")
+        if "as_bits" in vars(cls) and v in members:
+            ab, err = call(members[v].as_bits)
+            if err or ab != int2ba(v, length=w):
+                ctx.fail("element-as_bits", inp, f"{cls.__name__}({v}).as_bits() = {err or ab.to01()}", expected=int2ba(v, length=w).to01())
+    return out
+
+
+def check_fsn_value(ctx, v):
+    from okdmr.dmrlib.etsi.layer2.elements.fragment_sequence_number import FragmentSequenceNumber as F
+
+    inp = {"kind": "element", "element": "FragmentSequenceNumber", "value": v}
+    o, err = call(F.from_bits, int2ba(v, length=4))
+    out = err or f"M {o.value}"
+    if err or o.value != v or o.as_bits() != int2ba(v, length=4):
+        ctx.fail("element-fsn", inp, f"FragmentSequenceNumber {v} does not survive from_bits/as_bits", expected=f"M {v}", actual=out)
+    return out
+
+
 def check_elements(ctx):
     pairs = []
     for lname, cls, w in element_classes():
-        members = {m.value: m for m in cls}
         for v in range(2**w):
-            inp = {"kind": "element", "element": cls.__name__, "value": v}
             ctx.case(("elem", cls.__name__, v), nontrivial=True,
                      sample={"element": cls.__name__, "value": v} if (cls.__name__, v) == ("FeatureSetIDs", 3) else None)
-            try:
-                r = cls(v)
-                out = None
-            except ValueError:
-                r = None
-                hook_none = False
-                try:
-                    hook_none = cls._missing_(v) is None
-                except BaseException:
-                    pass
-                out = "NOTHING" if hook_none else "ERR ValueError"
-            except BaseException as e:  # noqa
-                r = None
-                out = impl_error(e)
-            if out is None:
-                if r is None or not isinstance(r, cls):
-                    out = "NOTHING"
-                else:
-                    out = f"M {r.value}"
+            out = check_element_value(ctx, cls, w, v)
             pairs.append((f"elem {cls.__name__} {v}", out))
             ctx.count(f"elem:{'member' if out.startswith('M') else out}")
-            # the property
-            if out == "NOTHING":
-                ctx.fail("element-nothing", inp, f"{cls.__name__}({v}) yields nothing (the _missing_ hook returns None)")
-            elif out.startswith("ERR") and out != "ERR ValueError":
-                ctx.fail("element-error", inp, f"{cls.__name__}({v}) raises {out}, not the documented ValueError", actual=out)
-            elif v in members and out != f"M {v}":
-                ctx.fail("element-defined-not-self", inp, f"{cls.__name__}({v}) is defined but maps to {out}", expected=f"M {v}", actual=out)
-            elif out.startswith("M"):
-                m = int(out[2:])
-                if m not in members or m >= 2**w:
-                    ctx.fail("element-fold-target", inp, f"{cls.__name__}({v}) maps to {m} which is not a defined {w}-bit member", actual=out)
-                else:
-                    again, err = call(cls, m)
-                    if err or again is not r:
-                        ctx.fail("element-fold-not-idempotent", inp, f"{cls.__name__}({v}) = {m} but {cls.__name__}({m}) is {err or again}")
-                if "from_bits" in vars(cls):
-                    fb, err = call(cls.from_bits, int2ba(v, length=w))
-                    if err or fb is not r:
-                        ctx.fail("element-from_bits", inp, f"{cls.__name__}.from_bits({v}) = {err or fb} differs from the constructor ({r})")
-                if "as_bits" in vars(cls) and v in members:
-                    ab, err = call(members[v].as_bits)
-                    if err or ab != int2ba(v, length=w):
-                        ctx.fail("element-as_bits", inp, f"{cls.__name__}({v}).as_bits() = {err or ab.to01()}", expected=int2ba(v, length=w).to01())
     # FragmentSequenceNumber (plain class around a 4-bit value)
-    from okdmr.dmrlib.etsi.layer2.elements.fragment_sequence_number import FragmentSequenceNumber as F
-
     for v in range(16):
-        inp = {"kind": "element", "element": "FragmentSequenceNumber", "value": v}
         ctx.case(("elem", "FSN", v))
-        o, err = call(F.from_bits, int2ba(v, length=4))
-        out = err or f"M {o.value}"
-        pairs.append((f"elem FragmentSequenceNumber {v}", out))
-        if err or o.value != v or o.as_bits() != int2ba(v, length=4):
-            ctx.fail("element-fsn", inp, f"FragmentSequenceNumber {v} does not survive from_bits/as_bits", actual=out)
+        pairs.append((f"elem FragmentSequenceNumber {v}", check_fsn_value(ctx, v)))
     if not ctx.search_only and ctx.driver_ok:
         ctx.correspond("elements", pairs)
 
@@ -1003,8 +1012,8 @@ def run(ctx):
     # ---- per kind
     for k in ks.values():
         enc_pairs = []
-        n_random = ctx.budget(200, 1500)
-        reps = ctx.budget(2, 6)
+        n_random = ctx.budget(200, 2000)
+        reps = ctx.budget(2, 8)
         for var in k.variants:
             first = True
             for fname, spec in var.fields:
@@ -1024,7 +1033,7 @@ def run(ctx):
             ctx.correspond(f"{k.name}.enc", enc_pairs)
         # decode side
         dec_pairs = []
-        n_bits = (ctx.budget(*k.n_bits) if k.n_bits else ctx.budget(3000, 80000)) if k.length is None or k.length > 8 else 256
+        n_bits = (ctx.budget(*k.n_bits) if k.n_bits else ctx.budget(3000, 100000)) if k.length is None or k.length > 8 else 256
         seen = set()
         seeds = []
         if k.length == 8:
@@ -1053,45 +1062,78 @@ def run(ctx):
             ctx.correspond(f"{k.name}.dec", dec_pairs)
 
 
+def model_says(prop, line):
+    """answer of the compiled model for one line (best effort, for replay output only)"""
+    import os
+    import subprocess
+
+    exe = os.path.join(os.path.dirname(os.path.abspath(__file__)), "..", "..", "lean", ".lake", "build", "bin", f"drv_{prop.lower()}")
+    try:
+        return subprocess.run([exe], input=line + "\n", capture_output=True, text=True, timeout=60).stdout.strip()
+    except Exception as e:  # noqa
+        return f"(model driver not available: {e})"
+
+
+class ReplayCtx:
+    def __init__(self):
+        self.failures = []
+        self.hist = {}
+
+    def fail(self, kind, input, what, expected=None, actual=None):
+        self.failures.append((kind, what, expected, actual))
+
+    def count(self, *a, **k):
+        pass
+
+    def case(self, *a, **k):
+        pass
+
+
 def replay(obj):
     f = obj.get("failure") or {}
     inp = f.get("input") or {}
     print(json.dumps(obj.get("type")), f.get("what"))
-
-    class R:
-        def __init__(self):
-            self.failures = []
-            self.hist = {}
-
-        def fail(self, kind, input, what, expected=None, actual=None):
-            self.failures.append((kind, what, expected, actual))
-
-        def count(self, *a, **k):
-            pass
-
-    r = R()
+    if not inp:
+        print("no failing input recorded (proof / correspondence broke):", json.dumps(obj.get("no_longer_checks") or obj.get("correspondence_differences"))[:2000])
+        return 1
+    r = ReplayCtx()
     if inp.get("kind") == "element":
-        for lname, cls, w in element_classes():
-            if cls.__name__ == inp["element"]:
-                res, err = call(cls, inp["value"])
-                print(f"implementation {cls.__name__}({inp['value']}) = {err or res}")
-        print("expected:", f.get("expected"), "actual:", f.get("actual"))
-        return 1
-    ks = {k.name: k for k in kinds()}
-    k = ks.get(inp.get("kind"))
-    if k is None:
-        print("unknown kind", inp.get("kind"))
-        return 1
-    if inp.get("mode") == "fields":
-        var = next(v for v in k.variants if v.name == inp["variant"])
-        res = check_fields(r, k, var, inp["fields"])
-        if res:
-            print("implementation as_bits:", sbits(res[3]))
-            print("model line:", res[0])
+        line = f"elem {inp['element']} {inp['value']}"
+        if inp["element"] == "FragmentSequenceNumber":
+            out = check_fsn_value(r, inp["value"])
+        else:
+            out = "unknown element"
+            for lname, cls, w in element_classes():
+                if cls.__name__ == inp["element"]:
+                    out = check_element_value(r, cls, w, inp["value"])
+        print("implementation:", out)
+        print("model         :", model_says(PROP, line))
+    elif inp.get("mode") == "gps-float":
+        w, n = inp["width"], inp["raw"]
+        step = 360 / 2**25 if w == 25 else 180 / 2**24
+        back = int((step * n) / step)
+        print(f"implementation: raw {n} -> {step * n!r} -> {back}")
+        if back != n:
+            r.fail("gps-float-inexact", inp, "float step inexact", n, back)
     else:
-        b = bitarray(inp["bits"] if inp["bits"] != "-" else "")
-        print("implementation from_bits:", check_bits(r, k, b))
-        print("model line:", f"{k.name}.dec {inp['bits']}")
+        ks = {k.name: k for k in kinds()}
+        k = ks.get(inp.get("kind"))
+        if k is None:
+            print("unknown kind", inp.get("kind"))
+            return 1
+        if inp.get("mode") == "fields":
+            var = next(v for v in k.variants if v.name == inp["variant"])
+            res = check_fields(r, k, var, inp["fields"])
+            if res:
+                print("implementation as_bits:", sbits(res[3]))
+                print("model line            :", res[0])
+                print("model                 :", model_says(PROP, res[0]))
+        else:
+            b = bitarray(inp["bits"] if inp["bits"] != "-" else "")
+            print("implementation from_bits:", check_bits(r, k, b))
+            print("model                   :", model_says(PROP, k.dec_line(inp["bits"])))
     for kind, what, exp, act in r.failures:
         print("STILL FAILS:", kind, what, "expected:", exp, "actual:", act)
+    if not r.failures:
+        print("the recorded input no longer fails on this tree")
     return 1 if r.failures else 0
